@@ -52,7 +52,7 @@ claim('C08', 'Coq refutation witness + Coq proof that the length-delimited chunk
 
 claim('C06', 'Coq refinement proof (file/dict/redis bookkeeping refine a finite map for all operation sequences; framing round-trip under codec hypotheses) + differential evaluation of the model in coqc on operation sequences run on the real stores',
       'Theorems (Props/C06.v): for EVERY operation sequence (dump/load/can_load/remove/remove_many/list/cleanup/pack/reopen) the file store '
-      '(with/without compress_numpy, packed or not), the dict store (with/without backing file) and the redis store return what a finite map '
+      '(with/without compress_numpy, packed or not, also after a `jug pack` killed half-way: keys both packed and loose), the dict store (with/without backing file) and the redis store return what a finite map '
       'returns and load = last write; list is exact and duplicate-free; remove is truthful; pack and reopen are the identity; the P/N/empty/raw-npy '
       'framing decodes to what was encoded given the byte codecs.  Tie: random operation sequences on 6 real store configurations, every '
       'observed result and the final packed/raw/encoded split compared with the model in coqc.',
@@ -70,7 +70,8 @@ claim('C10', 'Coq proof (set equations of cleanup per mode and backend for ANY s
 claim('C19', 'Coq proof (invariants of the keep-alive state machine over all event sequences, parametric in the timing constants) instantiated on constants the translator extracts from the source + differential evaluation of the model against the real monitor loop on a simulated clock',
       'Theorems (Props/C19.v): if rounds*(period+drift)+startup < expiry a live holder\'s lock is never reported failed, for every task duration; a '
       'dead holder\'s lock is no longer refreshed after one round and is reported failed from death+round+expiry on, after which cleanup '
-      '--failed-only removes it and get() succeeds; the monitor ends on release/fail, on holder death and on lock removal.  The side '
+      '--failed-only removes it and get() succeeds; the monitor ends on release/fail, on holder death and on lock removal; the helper is launched on '
+      'the lock file for every holder cwd and relative or absolute jugdir; fail() = stop-then-mark is sticky against a refreshing helper.  The side '
       'condition is proved for the constants regenerated from file_keepalive_monitor.py / file_keepalive_based_lock.py on every run.',
       'Kernel + vm_compute; translator harness/translate_c19.py (fail-closed ast extractor); integer-second shared clock, no PID reuse, '
       'bounded per-round drift and start-up delay are explicit premises; real time/process liveness is outside the model.',
@@ -92,7 +93,9 @@ claim('C04', 'Coq proof (per-primitive refinement of every lock program to an at
       'file, keep-alive file, redis (SETNX) and dict lock programs: exclusion; exactly one winner of a race for a free lock, the first get to '
       'return; a failed lock answers get False / is_locked True / is_failed True until a release begins and the store holds the failed marker at '
       'every primitive boundary; other names untouched and each name an independent lock; re-acquirable after release; every operation '
-      'linearizable at its last primitive.  The ORIGINAL redis GETSET program is refuted in Coq (D14, fixed in /repo 949240e).  Tie: every '
+      'linearizable at its last primitive; time passing between any two primitives changes nothing (C04_time_does_not_unlock); on the keep-alive backend '
+      'fail() = stop the helper, then mark, is sticky against a concurrently refreshing helper (the swapped order is refuted).  The ORIGINAL redis GETSET '
+      'program is refuted in Coq (D14, fixed in /repo 949240e).  Tie: every '
       'primitive (os.path.exists/os.open/unlink/utime/stat, fake-redis commands, dict_lock methods), response and returned value of the real '
       'locks under exhaustive (curated 2-4 client plans) and random schedules equals the model\'s, evaluated in coqc.',
       'Kernel + vm_compute; translators harness/translate_c04.py, translate_c19.py (fail-closed); atomicity of O_EXCL create/unlink/utime/stat, of '
@@ -105,7 +108,8 @@ claim('C05', 'Coq proof (invariant of a file-system model with volatile/durable 
       'or the renamed temporary; other results are bit-identical; results vanish only by an entitled unlink; a result moved into the pack '
       'stays available in every view; redis dump is one SET.  Tie: os-level traces of real dump/re-dump/pack/remove/cleanup (pickles 0 B-5 MB, '
       'raw and compressed arrays) must be accepted, reproduce the real listing, and every update_pack unlink must be covered by the durable pack; '
-      'every kill / power-loss image and every reader instant of those runs is checked with a fresh file_store.  Found and fixed: jug pack could '
+      'every kill / power-loss image and every reader instant of those runs is checked with a fresh file_store, which must also be able to WRITE again '
+      '(re-dump, pack, remove: residue never blocks a later write); redis values whose encoding crosses 4/32 MiB with a reader before every command.  Found and fixed: jug pack could '
       'lose results on power loss (6a45d89).',
       'Kernel + vm_compute; the Fs crash model is the hypothesis (fsync of a directory makes it and its entries durable; un-fsynced data is garbage; '
       'later directory operations independently lost); fin/complete/unlink entitlement/covers decided by the harness (strict decoder, API arguments); '
@@ -113,7 +117,7 @@ claim('C05', 'Coq proof (invariant of a file-system model with volatile/durable 
       'DESIGN.md sec. 3 C05')
 
 claim('C09', 'Coq proof (memoised DFS = reverse reachability by induction on fuel/position with a sound-memo invariant; shell work-list by a termination measure; store effect, closedness, following execute) + differential evaluation of the model in coqc against the real `jug invalidate`, shell invalidate() and `jug execute` + independent syntactic-closure / value oracle',
-      'Theorems (Props/C09.v) for every well-formed task graph (duplicate calls allowed), every target matcher and every store state: the command hands to '
+      'Theorems (Props/C09.v) for every well-formed task graph (acyclic, in ANY creation order - a dependency may be created after its consumer; duplicate calls allowed), every target matcher and every store state: the command hands to '
       'remove_many exactly {t | t matches or depends transitively on a match}; the shell\'s invalidate(s) visits exactly s and its dependents (any graph); '
       'command and shell remove the same set for the same target; exactly those keys lose their result, all others are untouched; dependency-closedness '
       'is preserved; a following execute runs exactly the tasks without result, each once.  Tie: generated jugfiles (edges via args, kwargs, containers, '
@@ -127,7 +131,7 @@ claim('C15', 'Coq proof (classification = specification by case analysis; counte
       'Theorems (Props/C15.v) for every task graph, store state (dependency-closed or not) and lock state: a task is counted complete iff stored, else waiting iff a direct '
       'dependency is not stored, else failed/active/ready by its lock; exactly one column; cells, per-name sums and the Total row add up to the tasks; for every '
       'history in which results only grow (locks arbitrary) every cached call prints what the uncached command prints (sticky finished/ready entries stay true); '
-      'check = 0 iff every task is complete, on every store state.  Tie: generated jugfiles x 2-4-state monotone histories x held/failed locks x file/packed/dict/'
+      'check = 0 iff every task is complete, on every store state; the cached mode accepts exactly the jugfiles whose dependencies are created before their consumers (its documented precondition) and refuses the others.  Tie: generated jugfiles x 2-4-state monotone histories x held/failed locks x file/packed/dict/'
       'fake-redis: every table cell, Total row, exit status, and the full sqlite cache content after every call.',
       'Kernel + vm_compute; graph = what Task.dependencies() yields; wf_dag checked per observed graph; results not removed and jugfile unchanged between cached calls '
       '(hypotheses of the property); fake redis; sqlite3 and the table/cache parsers trusted; no concurrent modification during a command.',
@@ -146,8 +150,8 @@ claim('C16', 'Coq proof (nested induction over the argument universe; frame / bl
       'DESIGN.md sec. 3 C16')
 
 claim('C14', 'Coq proof (trace invariant of the loader for all staged programs and stores; termination measure + simulation of the reload loop by the sequential evaluation; closed barrier => incomplete loaded task) + differential evaluation of the model in coqc against jug.init / check / execute on generated jugfiles at every subset of earlier results',
-      'Theorems (Props/C14.v) over Model/Loader.v, for all programs (continuations after bvalue are arbitrary functions of the value; barriers inside compound builders) and all stores: a barrier() returns only if every task defined before it is stored, bvalue(a) returns only the stored value and the load continues as k v, nothing runs after a BarrierError and the namespace is flagged iff there was one; the reload loop of execute needs at most (number of barrier/bvalue calls of the sequential evaluation)+1 loads and ends with no barrier closed, check = 0 and every stored value equal to the sequential one; a closed barrier implies an unstored loaded task and check = 1 on ANY store (after the D18 repair).  Tie: generated jugfiles with markers after every barrier, real jug.init + CheckCommand at every subset of earlier results (also with non-sequential values), real jug execute on dict and file stores; alltasks by real hash, markers, flag, exit code, final store and number of loads compared with the model.',
-      'Kernel + vm_compute; one worker (multi-worker protocol: C01/C02); premises: sequential evaluation succeeds, one value per identifier (tested per case), start store agrees with it, Python scoping; task identifiers are real hashes predicted with jug.task.Task.hash on stub functions; values integers mod 3 and pairs.',
+      'Theorems (Props/C14.v) over Model/Loader.v, for all programs (continuations after bvalue are arbitrary functions of the value; barriers inside compound builders) and all stores: a barrier() returns only if every task defined before it is stored, bvalue(a) returns only the stored value and the load continues as k v, nothing runs after a BarrierError and the namespace is flagged iff there was one; the reload loop of execute needs at most (number of barrier/bvalue calls of the sequential evaluation)+1 loads and ends with no barrier closed, check = 0 and every stored value equal to the sequential one; a closed barrier implies an unstored loaded task and check = 1 on ANY store (after the D18 repair); `jug sleep-until` exits only when a fresh load is complete (C14_sleep_until_exits_only_when_complete); for ANY NUMBER OF WORKERS barrier()/bvalue() are extra scheduling dependencies and the protocol theorems of C01/C02 apply (C14_many_workers_*: nothing behind a barrier starts early, values sequential, complete at quiescence).  Tie: generated jugfiles with markers after every barrier, real jug.init + CheckCommand at every subset of earlier results (also with non-sequential values), real jug execute on dict and file stores; alltasks by real hash, markers, flag, exit code, final store and number of loads compared with the model; deep dependency chains under a lowered recursion limit; failing tasks and locks across phases with the exit-status oracle; several lock-step workers running the real reload loop validated against Model/Exec.v with barrier edges (harness/execbarrier.py).',
+      'Kernel + vm_compute; the loader theorems are about one worker, the many-workers theorems about the protocol with barrier edges (the reading of barriers as edges is justified by the loader theorems and validated by the traces); premises: sequential evaluation succeeds, one value per identifier (tested per case), start store agrees with it, Python scoping; task identifiers are real hashes predicted with jug.task.Task.hash on stub functions; values integers mod 3 and pairs.',
       'DESIGN.md sec. 3 C14')
 claim('C18', 'Coq proof (compound = builder in place + one task with the probe hash; collapse; value through the reload-loop theorem; cleanup preserves what is loaded) + differential evaluation of the model in coqc against CompoundTaskGenerator / execute / cleanup / status on generated builders',
       'Theorems (Props/C18.v) over Model/Loader.v for all builders (arbitrary staged programs: nested compounds, barriers/bvalue inside, tuple/constant results) and all stores: with no result under its hash a compound loads exactly as its builder written in place followed by one task that stores the value of the builder\'s result under that hash; after execute every compound\'s stored value is the sequential value of its builder\'s result; with a result it loads as ONE task and nothing of the builder, execute runs nothing, and cleanup (keep the hashes of loaded tasks) keeps the compound key with its value, drops every inner result, and leaves the load and check unchanged.  Tie: generated builders x start stores {empty, some/all inner, collapsed, only compounds, everything, random, non-sequential values} x random load/phase/execute/cleanup/status sequences on dict and file stores; alltasks by real hash, executed tasks, whole store and counts compared after every step.',
